@@ -7,7 +7,8 @@ func profileByName(name string) Profile {
 	p.Name = name
 	switch name {
 	case "general":
-		p.Types = []int{0, 1, 2, 3, 4, 7, 9, 17, tBundle, tMapV, tFuncV, tArrV, tEmbV}
+		// (4, 7 and tEmbV twice: method-less struct types, the ones layouts 7 and 8 can embed)
+		p.Types = []int{0, 1, 2, 3, 4, 7, 9, 17, tBundle, tMapV, tFuncV, tArrV, tEmbV, 4, 7, tEmbV, tBundle, tBundle}
 	case "gapped":
 		p.PGap, p.POptional, p.PDecorate, p.PInvalid = 0.22, 0.4, 0.1, 0.02
 		p.MinFns, p.MaxFns = 3, 10
@@ -319,7 +320,7 @@ func largeJobs(prop, tier string) []JobSpec {
 	case "C16":
 		return []JobSpec{{"diff:c16big", n}, {"diff:c16graph", ng}}
 	case "C17":
-		return []JobSpec{{"diff:c17big", n}, {"diff:c17graph", 3 * ng}}
+		return []JobSpec{{"diff:c17big", n}, {"diff:c17graph", 8 * ng}}
 	case "C18":
 		return []JobSpec{{"hist:largeinfo", n}}
 	case "C19":
